@@ -238,7 +238,7 @@ fn run_case(c: &Case) -> Result<(ClientOut, ServerLog), Fail> {
     let rt = tokio::runtime::Builder::new_current_thread().enable_all().build().map_err(|e| Fail::new("env-runtime", e.to_string()))?;
     let c = c.clone();
     rt.block_on(async move {
-        let listener = TcpListener::bind("127.0.0.1:0").await.map_err(|e| Fail::new("env-bind", e.to_string()))?;
+        let listener = TcpListener::bind(if c.host == "[::1]" { "[::1]:0" } else { "127.0.0.1:0" }).await.map_err(|e| Fail::new("env-bind", e.to_string()))?;
         let port = listener.local_addr().map_err(|e| Fail::new("env-bind", e.to_string()))?.port();
         let log = Arc::new(Mutex::new(ServerLog::default()));
         let srv = tokio::spawn(serve(listener, c.clone(), log.clone()));
@@ -343,12 +343,20 @@ pub fn check(c: &Case, obs: &mut Obs) -> Result<(), Fail> {
     }
     ensure!(tls_ok, "c17:cleartext-after-tls-start", "bytes that are neither the StartTLS request nor TLS records were sent by the client: {}", ber::hex(&log.raw_read[..log.raw_read.len().min(80)]));
     // (I2) Ok iff TLS was really established under the effective trust settings
-    let cert_ok = c.verify == Verify::Disabled || (c.verify == Verify::TestCa && c.cert == Cert::Good);
+    // is the certificate valid for the name the URL gives?
+    let name_ok = match c.cert {
+        Cert::Good => true,
+        Cert::DnsOnly => c.host == "localhost",
+        _ => false,
+    };
+    let cert_ok = c.verify == Verify::Disabled || (c.verify == Verify::TestCa && name_ok);
     let server_side_ok = match c.scheme {
         Scheme::StartTls => matches!(c.reply, Reply::Success | Reply::NonExtended) && c.post != Post::HandshakeGarbage,
         Scheme::Ldaps => c.post != Post::HandshakeGarbage,
     };
-    let must_ok = server_side_ok && cert_ok && c.reply != Reply::NonExtended;
+    // (a bracketed IPv6 literal is handed to the TLS library as it stands in the URL; whether that verifies
+    // against an IP subjectAltName is a capability, not a safety matter: Ok is allowed there, not demanded)
+    let must_ok = server_side_ok && cert_ok && c.reply != Reply::NonExtended && !(c.host == "[::1]" && c.verify != Verify::Disabled);
     let may_ok = server_side_ok && cert_ok;
     match &out.connected {
         Ok(()) => {
@@ -378,10 +386,20 @@ pub fn check(c: &Case, obs: &mut Obs) -> Result<(), Fail> {
     Ok(())
 }
 
+/// "[::1]" if the IPv6 loopback can be bound here, else the IPv4 literal
+fn v6_or_v4() -> &'static str {
+    static V6: std::sync::OnceLock<bool> = std::sync::OnceLock::new();
+    if *V6.get_or_init(|| std::net::TcpListener::bind("[::1]:0").is_ok()) {
+        "[::1]"
+    } else {
+        "127.0.0.1"
+    }
+}
+
 pub fn cells() -> Vec<(Scheme, Verify, Cert, Reply, Post)> {
     let mut v = Vec::new();
     for verify in [Verify::Default, Verify::Disabled, Verify::TestCa] {
-        for cert in [Cert::Good, Cert::WrongName, Cert::SelfSigned, Cert::Expired] {
+        for cert in [Cert::Good, Cert::WrongName, Cert::SelfSigned, Cert::Expired, Cert::DnsOnly] {
             for reply in [Reply::Success, Reply::Code, Reply::NonExtended, Reply::ForeignSuccessThenCode] {
                 for post in [Post::Proper, Post::HandshakeGarbage, Post::InjectThenProper] {
                     if matches!(reply, Reply::Code | Reply::ForeignSuccessThenCode) && post == Post::HandshakeGarbage {
@@ -429,7 +447,14 @@ fn lane_run(ctx: &Ctx, known: &[KnownFinding]) -> LaneReport {
                 rc: codes[(r % codes.len() as u64) as usize],
                 garbage,
                 inject_kind: (r >> 20) as u8,
-                host: if (r >> 30) % 2 == 0 || round == 0 { "localhost".into() } else { "127.0.0.1".into() },
+                host: match (*cert, round, (r >> 30) % 3) {
+                    // the DNS-only certificate is valid for "localhost" and must be refused for the address literals
+                    (Cert::DnsOnly, 0, _) => if i % 2 == 0 { "127.0.0.1" } else { v6_or_v4() },
+                    (_, 0, _) | (_, _, 0) => "localhost",
+                    (_, _, 1) => "127.0.0.1",
+                    _ => v6_or_v4(),
+                }
+                .into(),
                 split_writes: (r >> 33) % 2 == 0,
                 build: if round == 0 { (i % 5) as u8 } else { ((r >> 40) % 5) as u8 },
             };
@@ -463,7 +488,7 @@ pub fn property() -> Property {
     Property {
         id: "C17",
         level: "fault_enumeration",
-        rule: "EXHAUSTIVE product of scheme {ldap+StartTLS, ldaps} x verification {default trust store, no_tls_verify, custom connector trusting the test CA} x server certificate {CA-signed for localhost/127.0.0.1, CA-signed for another name, self-signed, expired} x StartTLS reply {success, non-zero code (after which the server still stands ready for a handshake, so a client that ignores the code is exposed), garbage then close, close, well-formed non-extended response, a success bearing a foreign message id (0, id+1, id+7) ahead of the real refusal} x post-reply behaviour {proper handshake, handshake garbage, forged cleartext LDAP responses for the next message ids in the same segment as the StartTLS response then a proper handshake} (168 cells) plus a sweep of 28 non-zero StartTLS result codes (incl. 5, 6, 10, 14) on the cell where everything else would succeed, each with generated parameters (result code, garbage bytes, forged PDU kind, host spelling, server write segmentation, the way the settings object is built: new() / default() base, two orders of the builder calls, a clone, or the blocking LdapConn API); thorough repeats the product 60 times with fresh parameters. The harness's server (tokio + native-tls acceptor, committed test PKI) records every raw byte it receives. Oracle: cleartext holds exactly one StartTLS ExtendedRequest (or nothing on ldaps) and otherwise only TLS records; establishment returns Ok only if the reply was a success, the handshake completed on the server and the certificate is acceptable under the effective settings (and must return Ok when all of that holds for a real StartTLS success); after Ok a bind is received inside TLS, returns the token sent inside TLS (never the forged cleartext one) and its password never appears in the raw log. Non-trivial: every cell (each contains an adversarial or trust-decision element); distinct = cell + parameters.",
+        rule: "EXHAUSTIVE product of scheme {ldap+StartTLS, ldaps} x verification {default trust store, no_tls_verify, custom connector trusting the test CA} x server certificate {CA-signed for localhost/127.0.0.1/::1, CA-signed for another name, self-signed, expired, CA-signed for the DNS name localhost only (to be refused when the URL names the host by address)} x StartTLS reply {success, non-zero code (after which the server still stands ready for a handshake, so a client that ignores the code is exposed), garbage then close, close, well-formed non-extended response, a success bearing a foreign message id (0, id+1, id+7) ahead of the real refusal} x post-reply behaviour {proper handshake, handshake garbage, forged cleartext LDAP responses for the next message ids in the same segment as the StartTLS response then a proper handshake} (210 cells) plus a sweep of 28 non-zero StartTLS result codes (incl. 5, 6, 10, 14) on the cell where everything else would succeed, each with generated parameters (result code, garbage bytes, forged PDU kind, host spelling, server write segmentation, the way the settings object is built: new() / default() base, two orders of the builder calls, a clone, or the blocking LdapConn API); thorough repeats the product 60 times with fresh parameters. The harness's server (tokio + native-tls acceptor, committed test PKI) records every raw byte it receives. Oracle: cleartext holds exactly one StartTLS ExtendedRequest (or nothing on ldaps) and otherwise only TLS records; establishment returns Ok only if the reply was a success, the handshake completed on the server and the certificate is acceptable under the effective settings (and must return Ok when all of that holds for a real StartTLS success); after Ok a bind is received inside TLS, returns the token sent inside TLS (never the forged cleartext one) and its password never appears in the raw log. Non-trivial: every cell (each contains an adversarial or trust-decision element); distinct = cell + parameters.",
         assumptions: &[
             "real sockets and wall time: verdicts are functions of the cell, timing is never borderline (guards of 10-20 s yield an env-* failure = inconclusive)",
             "only the default tls-native backend (OpenSSL) is exercised; the test CA is not in the system trust store, so 'default' verification must refuse every test certificate",
